@@ -748,6 +748,15 @@ func (f *Frame) headerPhis(li *loopInfo) []*ssa.Phi {
 }
 
 func (f *Frame) enterLoop(li *loopInfo, st *State) *State {
+	if f.top && (li.spec == nil || (len(li.spec.Invariants) == 0 && li.spec.Unroll == 0)) {
+		// a loop the contract says nothing about gets the weakest invariant: everything it may
+		// write is unknown afterwards (sound; keeps a new loop from detaching the whole contract)
+		e, _ := parseExpr("true")
+		if li.spec == nil {
+			li.spec = &LoopSpec{}
+		}
+		li.spec.Invariants = append(li.spec.Invariants, Clause{Text: "true", E: e, Line: "default"})
+	}
 	if !f.top || li.spec == nil || (len(li.spec.Invariants) == 0 && li.spec.Unroll == 0) {
 		f.errorf("loop %d (block %d, %s) has no invariant", li.k, li.header.Index, li.header.Comment)
 		return nil
